@@ -15,9 +15,10 @@ VARIABLES l,        \* position in the trace
           peak, cap0,
           stale,    \* T is older than the previous event (that event shipped no snapshot)
           gaps,     \* some event since reset shipped no snapshot: the peak population is unknown
-          every     \* the instance ships its snapshot with every n-th call (1 = always)
+          every,    \* the instance ships its snapshot with every n-th call (1 = always)
+          rpeak     \* peak population according to the reference (an upper bound of the physical peak)
 
-vars == <<l, m, des, aged, T, hasSnap, isSet, peak, cap0, stale, gaps, every>>
+vars == <<l, m, des, aged, T, hasSnap, isSet, peak, cap0, stale, gaps, every, rpeak>>
 
 R == INSTANCE OrdRef
 
@@ -45,7 +46,7 @@ GrowthOK(TT, pk, c0) == Len(TT.nd) <= 4 * (pk + 1) + Max(c0, 8)
 Structure(TT, pk, c0) ==
   /\ V("WF", WellFormed(TT), "snapshot is not a valid red-black search tree")
   /\ V("POOL", PoolOK(TT), "slots are not partitioned into sentinel / tree / free list")
-  /\ (~gaps => V("GROWTH", GrowthOK(TT, pk, c0), <<"arena slots", Len(TT.nd), "peak stored", pk>>))
+  /\ V("GROWTH", GrowthOK(TT, IF gaps THEN Max(pk, rpeak) ELSE pk, c0), <<"arena slots", Len(TT.nd), "peak stored", IF gaps THEN Max(pk, rpeak) ELSE pk>>)
 
 Refines(TT, f) == RangeOK(TT) /\ Contents(TT) = Graph(f)
 \* lists: get_value of every key of the universe + is_empty; the returned value must carry its key
@@ -196,22 +197,26 @@ StepOp ==
   /\ peak' = NewPeak /\ every' = every
   /\ DriftCheck
   \* binding: an instance that ships every snapshot must ship it with every call that returned
-  /\ (hasSnap /\ every = 1 /\ ~Has("snap") /\ Ev.op \notin {"export", "exportn"} /\ Ev.out \in {"ok", "unwound"}
+  /\ (hasSnap /\ every = 1 /\ ~Has("snap") /\ ~Has("arena") /\ Ev.op \notin {"export", "exportn"} /\ Ev.out \in {"ok", "unwound"}
         => Breach(<<"snapshot missing: the structural predicates are unbound", Ev.op>>))
   /\ CASE Ev.out = "ok" -> OpOk
        [] Ev.out = "unwound" -> OpUnwound
        [] OTHER -> /\ Same
                    /\ V("OUTCOME", FALSE, <<Ev.op, "ended with", Ev.out, IF Has("msg") THEN Ev.msg ELSE "">>)
+  /\ rpeak' = Max(rpeak, Cardinality(DOMAIN m'))
+  \* an arena too large to be shipped is reported by its size: judged against the reference's peak
+  /\ (Has("arena") => V("GROWTH", Ev.arena.slots <= 4 * (rpeak' + 1) + Max(cap0, 8),
+                            <<"arena slots", Ev.arena.slots, "peak population (reference)", rpeak'>>))
 
 StepReset ==
-  /\ m' = R!Empty /\ des' = R!Empty /\ aged' = {} /\ peak' = 0 /\ cap0' = Ev.cap /\ stale' = FALSE /\ gaps' = FALSE /\ every' = IF Has("se") THEN Ev.se ELSE 1
+  /\ m' = R!Empty /\ des' = R!Empty /\ aged' = {} /\ peak' = 0 /\ cap0' = Ev.cap /\ stale' = FALSE /\ gaps' = FALSE /\ every' = (IF Has("se") THEN Ev.se ELSE 1) /\ rpeak' = 0
   /\ hasSnap' = Has("snap") /\ isSet' = (Ev.set = 1)
   /\ T' = IF Has("snap") THEN FromSnap(Ev.snap) ELSE NoTree
   /\ (Has("snap") => Structure(T', 0, Ev.cap) /\ V("CLEARED", RangeOK(T') /\ Contents(T') = {}, "a new tree stores entries"))
 
 StepLoad ==
   /\ T' = FromSnap(Ev.snap)
-  /\ hasSnap' = TRUE /\ isSet' = (Ev.set = 1) /\ cap0' = Ev.cap /\ stale' = FALSE /\ gaps' = FALSE /\ every' = IF Has("se") THEN Ev.se ELSE 1
+  /\ hasSnap' = TRUE /\ isSet' = (Ev.set = 1) /\ cap0' = Ev.cap /\ stale' = FALSE /\ gaps' = FALSE /\ every' = (IF Has("se") THEN Ev.se ELSE 1) /\ rpeak' = 0
   /\ m' = IF RangeOK(T') THEN FromGraph(Contents(T')) ELSE R!Empty
   /\ des' = R!Empty /\ aged' = {}
   /\ peak' = IF RangeOK(T') THEN Max(Count(T'), (Len(T'.nd) - Max(Ev.cap, 8)) \div 4) ELSE 0
@@ -223,10 +228,10 @@ Step ==
   /\ CASE Ev.ev = "reset" -> StepReset
        [] Ev.ev = "load"  -> StepLoad
        [] Ev.ev = "op"    -> StepOp
-       [] OTHER -> UNCHANGED <<m, des, aged, T, hasSnap, isSet, peak, cap0, stale, gaps, every>> /\ Breach(<<"unknown event", Ev.ev>>)
+       [] OTHER -> UNCHANGED <<m, des, aged, T, hasSnap, isSet, peak, cap0, stale, gaps, every, rpeak>> /\ Breach(<<"unknown event", Ev.ev>>)
 
 Init == /\ l = 1 /\ m = R!Empty /\ des = R!Empty /\ aged = {} /\ T = NoTree
-        /\ hasSnap = FALSE /\ isSet = FALSE /\ peak = 0 /\ cap0 = 0 /\ stale = FALSE /\ gaps = FALSE /\ every = 1
+        /\ hasSnap = FALSE /\ isSet = FALSE /\ peak = 0 /\ cap0 = 0 /\ stale = FALSE /\ gaps = FALSE /\ every = 1 /\ rpeak = 0
 
 Spec == Init /\ [][Step]_vars
 
